@@ -80,6 +80,12 @@ def cases(draw, tier):
             methods.append({'name': name, 'args': args,
                             'types': [draw(st.sampled_from(TYPES)) for _ in args],
                             'static': draw(st.integers(0, 3)) == 0})
+        if methods and draw(st.integers(0, 5)) == 0:
+            # overloads that differ in parameter types only: same name, same parameter names,
+            # some of them without documentation (more bindings than documented members)
+            import copy
+            m0 = draw(st.sampled_from(methods))
+            methods = methods + [copy.deepcopy(m0), copy.deepcopy(m0)]
         # documentation
         fault = draw(st.sampled_from(['none', 'none', 'none', 'none', 'not-in-index',
                                       'file-missing', 'file-truncated', 'file-empty']))
